@@ -7,7 +7,7 @@ import z3
 from . import ty as T
 from .core import *  # noqa
 from .core import V, Exc, Event, DottedName, BoundMethod, Closure
-from .interp import Iter, zsimp, NUMERIC
+from .interp import Iter, zsimp, NUMERIC, nth
 
 BUILTINS = {}
 METHODS = {}
@@ -233,6 +233,18 @@ def m_map(R, args, kw, node):
 
     if it.concrete is not None:
         return const(Iter(it.n, None, concrete=[R.call_value(fn, [x], {}, node, None) for x in it.concrete]))
+    seq = getattr(it, "seq", None)
+    if seq is not None and fn.is_const and isinstance(fn.z, DottedName):
+        # map(f, xs) over a sequence VALUE: the uninterpreted sequence map_f(xs) with its two defining facts (same term wherever the
+        # same map is written - in code and in clauses - so no extensionality is needed to compare them)
+        j = z3.Int(fresh_name("mj"))
+        sample = R.call_value(fn, [V(seq.t.elem, nth(seq.z, j))], {}, node, None)
+        if not sample.t.heap and not sample.is_const:
+            st = T.Seq(sample.t)
+            mv = R.ctx.uf_apply(R, "map_" + fn.z.name.replace(".", "_"), [seq], st)
+            R.assume(z3.Length(mv.z) == z3.Length(seq.z))
+            R.assume(z3.ForAll([j], z3.Implies(z3.And(0 <= j, j < z3.Length(seq.z)), nth(mv.z, j) == sample.z)))
+            return const(Iter(z3.Length(mv.z), lambda k, mv=mv: V(mv.t.elem, nth(mv.z, k)), seq=mv))
     return const(Iter(it.n, at, src_locs=it.src_locs))
 
 
@@ -1206,8 +1218,23 @@ def str_join(R, recv, args, kw, node):
         for p in parts:
             z = p.z if z is None else z3.Concat(z, recv.z, p.z)
         return V(T.Str, z if z is not None else z3.StringVal(""))
-    sv = R.as_seq(s)
+    if s.is_const and isinstance(s.z, Iter) and getattr(s.z, "seq", None) is not None:
+        sv = s.z.seq
+    else:
+        sv = R.as_seq(s)
     return R.ctx.uf_apply(R, "str.join", [recv, sv], T.Str)
+
+
+@method("str", "partition")
+def str_partition(R, recv, args, kw, node):
+    sep = R.project(args[0], kindp("str"), lab(R, node, "partition"))
+    i = z3.IndexOf(recv.z, sep.z, 0)
+    found = z3.Contains(recv.z, sep.z)
+    n = z3.Length(recv.z)
+    pre = z3.If(found, z3.SubString(recv.z, 0, i), recv.z)
+    mid = z3.If(found, sep.z, z3.StringVal(""))
+    post = z3.If(found, z3.SubString(recv.z, i + z3.Length(sep.z), n - i - z3.Length(sep.z)), z3.StringVal(""))
+    return R.mk_tuple([V(T.Str, pre), V(T.Str, mid), V(T.Str, post)])
 
 
 @method("str", "split")
